@@ -199,7 +199,7 @@ CHECKS["C09"] = dict(
           "model (Show off = F10, NoHydrate slot before a hydrated slot of the same kind = F16, lists / NoSsr / Show over non-elements = F11-F13, view-set data-hk, children of void elements), and on two enumerations of "
           "small views the class is exactly where all clauses hold (C09h_class_exact_on_enumeration). Tie to the code on every run: Hydrate.v is given the REAL parsed server DOM and must predict the DOM right after the "
           "real hydration (structure and surviving server nodes); server_dom must equal the parsed real server string; `hydratable` is evaluated on every generated view and the real hydration of every view in the class must "
-          "succeed and pass the oracle. NOT proved: that the instance built by hydration reacts like a client-created one (hyd returns a DOM, not an instance) -- decided by the end-to-end check. End-to-end check: "
+          "succeed and pass the oracle. THE LAST SENTENCE ('afterwards the view reacts exactly as a client-rendered one') is proved too (Dom/HydrateInst.v = the same walk returning also the reactive instance, with the DOM component proved equal to hydrate's; Dom/Hydrate{InstFacts,Own,OwnWalk,Ids,React}.v, Props/C09i.v, ~2300 lines, axiom-free): for every hydratable view the part of the hydrated DOM the view owns IS the DOM of the instance, its elements are pairwise distinct server elements (C09i_hydrated); when the view is live (no non-empty NoHydrate in the part that is built: NoHydrate content is inert on the client by design, shown necessary by C09i_nohydrate_inert) the instance is, identities erased, the instance of a fresh client render, hence after ANY sequence of writes the hydrated view shows, output by output, what the client-rendered view shows = the fresh render of the state reached (C09i_reacts, C09i_run_from), and which adopted nodes a write keeps follows ClientStable.v (C09i_keeps, C09i_ids, C09i_run_ids). Tie on every run: hydratei is evaluated on the REAL parsed server DOM, updated through the scenario's writes, and after hydration and after every write its elements (adopted server node or new) must be those of the real DOM (~400 views quick). End-to-end check: "
           "for ~500 (quick) / ~6000 (thorough) random views plus hand-picked soft spots the server string produced by the real native SSR build is parsed into the in-process DOM and hydrated by the real "
           "HydrateNode code; checked: no panic, every server element adopted exactly once in place (ids before = ids after, all and only keyed elements stamped), visible tree unchanged, after 0-4 writes the visible tree "
           "equals a fresh client render and follows Dom/Client.v. Genuine defects found and recorded as known findings F9-F13, F15, F16."),
